@@ -462,7 +462,9 @@ def check_c20(tier, seed):
                 cfgo = {field: val, 'enc_mode': pr, 'logical_processors': rng.choice([1, 2])}
                 if kind == 'text': cfgo['screen_content_mode'] = rng.choice([1, 2] if tier != 'quick' else [1])
                 if field == 'obmc_level' and val == 0: cfgo['enable_warped_motion'] = 0
-                if field == 'superres_mode' and val: cfgo.update({'superres_denom': 12, 'superres_kf_denom': 12})
+                # superres with TPL on crashes before a packet is written (KF-C11-superres-tpl, exercised by C11): the on-variant is encoded with
+                # TPL off so that the header flag and the tool-usage counters of a superres stream are really observed here
+                if field == 'superres_mode' and val: cfgo.update({'superres_denom': 12, 'superres_kf_denom': 12, 'enable_tpl_la': 0})
                 n = rng.randint(4, 7)
                 cases.append(mk(ck, cfgo, {'kind': kind, 'seed': rng.randint(1, 999)}, n, rng.choice([(64, 64), (128, 64), (96, 96)]), oracles={'decode': 0, 'parse': 1, 'tools': 1, 'tool_usage': 1, 'order': 0}))
     # interactions: a switch must stay off when *other* tools (screen-content tools, palette, intrabc) are active, on content where both would pay off
